@@ -45,7 +45,49 @@ def _ep(pred, label, iv):
             "lnk": None, "surface": None, "base": None}
 
 
-def gen_wf(rng, max_eps=7, mutual=0.03, twins=0.5):
+def resolve_bodies(rng, rels, hcons, newh, mode=None):
+    """RESOLVED quantifier bodies (fully or partly scoped MRSs): the BODY of a quantifier is directly the
+    label of a predication (label-scopal, BODY/HEQ link) or a hole with a qeq constraint (qeq-scopal,
+    BODY/H link) instead of the unconstrained hole of an ordinary parse.  `full`: the quantifiers form a
+    chain q1 > q2 > ... > a non-quantifier scope (a scoped reading); `part`: each quantifier independently
+    open / label / qeq, target any other label (restriction, other quantifier, top scope, ...)."""
+    qs = [e for e in rels if any(r == "RSTR" for r, _ in e["args"])]
+    if not qs:
+        return
+    mode = mode or rng.choice(["full", "part", "part"])
+    labels = []
+    for e in rels:
+        if e["label"] not in labels:
+            labels.append(e["label"])
+
+    def setbody(q, tgt, kind):
+        for a in q["args"]:
+            if a[0] == "BODY":
+                if kind == "heq":
+                    a[1] = tgt
+                else:
+                    hcons.append([a[1], "qeq", tgt])
+    if mode == "full":
+        order = list(qs)
+        rng.shuffle(order)
+        qlabels = [q["label"] for q in qs]
+        rest = [l for l in labels if l not in qlabels] or labels
+        kind = rng.choice(["heq", "h", "mix"])
+        for k, q in enumerate(order):
+            tgt = order[k + 1]["label"] if k + 1 < len(order) else rng.choice(rest)
+            if tgt != q["label"]:
+                setbody(q, tgt, rng.choice(["heq", "h"]) if kind == "mix" else kind)
+    else:
+        for q in qs:
+            r = rng.random()
+            if r < 0.3:
+                continue
+            cands = [l for l in labels if l != q["label"]]
+            if cands:
+                setbody(q, rng.choice(cands), "heq" if r < 0.65 else "h")
+
+
+def gen_wf(rng, max_eps=7, mutual=0.03, twins=0.5, bodies=0.4):
     """A connected, scope-plausible MRS with the IV property, built as a tree of
     attachments; returns the MRS JSON.  Corners: modifiers sharing labels, label sharing
     without arguments (MOD/EQ), qeq- and label-scopal arguments, quantifiers, constants,
@@ -126,6 +168,9 @@ def gen_wf(rng, max_eps=7, mutual=0.03, twins=0.5):
             rels.append(q)
             nargs.append(0)
             quantified.append(i)
+    # resolved quantifier bodies (fully / partly scoped MRS)
+    if quantified and rng.random() < bodies:
+        resolve_bodies(rng, rels, hcons, newh)
     # mutual arguments inside one scope (finding F08)
     if n >= 2 and rng.random() < mutual:
         a = rng.randrange(n)
@@ -137,6 +182,8 @@ def gen_wf(rng, max_eps=7, mutual=0.03, twins=0.5):
         for hc in hcons:
             if hc[2] == old:
                 hc[2] = rels[a]["label"]
+        for e in rels[n:]:                 # a resolved BODY selecting the merged scope directly
+            e["args"] = [[r_, rels[a]["label"] if v == old else v] for r_, v in e["args"]]
         for (s, t) in ((a, b), (b, a)):
             if not any(v == ivs[t] for r_, v in rels[s]["args"] if r_ != "ARG0"):
                 addarg(s, ivs[t])
@@ -293,6 +340,147 @@ def lookalike_block():
                     break
             mm["vars"] = [[v, [[k, txt] for k, _ in ps]] for v, ps in mm["vars"]]
             yield mm
+
+
+def body_bases():
+    """quantified structures for the resolved-BODY block"""
+    h = lambda k: ["h", k]                      # noqa: E731
+    x = lambda k: ["x", k]                      # noqa: E731
+    e = lambda k: ["e", k]                      # noqa: E731
+
+    def ep(pred, lbl, iv, *args, carg=None):
+        d = _ep(pred, lbl, iv)
+        d["args"] += [list(a) for a in args]
+        d["carg"] = carg
+        return d
+
+    def M(rels, hcons, index=None, vars_=()):
+        return {"top": h(0), "index": index, "rels": rels, "hcons": [list(c) for c in hcons],
+                "icons": [], "vars": [list(v) for v in vars_]}
+    T = [h(0), "qeq", h(1)]
+    out = []
+    # the dog barks
+    out.append(("q1", M([ep("_the_q", h(4), x(3), ("RSTR", h(5)), ("BODY", h(6))), ep("_dog_n_1", h(7), x(3)),
+                         ep("_bark_v_1", h(1), e(2), ("ARG1", x(3)))], [T, [h(5), "qeq", h(7)]], e(2),
+                        vars_=[[x(3), [["PERS", "3"]]], [e(2), [["TENSE", "past"]]]])))
+    # every dog chases the dog (two quantifiers, equal nouns)
+    out.append(("q2", M([ep("_every_q", h(4), x(3), ("RSTR", h(5)), ("BODY", h(6))), ep("_dog_n_1", h(7), x(3)),
+                         ep("_the_q", h(8), x(9), ("RSTR", h(10)), ("BODY", h(11))), ep("_dog_n_1", h(12), x(9)),
+                         ep("_chase_v_1", h(1), e(2), ("ARG1", x(3)), ("ARG2", x(9)))],
+                        [T, [h(5), "qeq", h(7)], [h(10), "qeq", h(12)]], e(2))))
+    # the big Kim barks (restriction with a modifier), predications not in scope order
+    out.append(("q1-mod", dict(curated_base())["quantified"]))
+    # every dog doesn't bark: a scopal operator between top and verb
+    out.append(("q1-neg", M([ep("neg", h(1), e(13), ("ARG1", h(14))),
+                             ep("_every_q", h(4), x(3), ("RSTR", h(5)), ("BODY", h(6))), ep("_dog_n_1", h(7), x(3)),
+                             ep("_bark_v_1", h(15), e(2), ("ARG1", x(3)))],
+                            [T, [h(5), "qeq", h(7)], [h(14), "qeq", h(15)]], e(2))))
+    # the dog barks and it snows: the verb's scope has two representatives tied by MOD/EQ
+    out.append(("q1-two-reps", M([ep("_the_q", h(4), x(3), ("RSTR", h(5)), ("BODY", h(6))), ep("_dog_n_1", h(7), x(3)),
+                                  ep("_snow_v_1", h(1), e(8)), ep("_bark_v_1", h(1), e(2), ("ARG1", x(3)))],
+                                 [T, [h(5), "qeq", h(7)]], e(2), vars_=[[e(2), [["TENSE", "past"]]]])))
+    # the dog barks, with two further members of the top scope that take each other (a group without a
+    # representative: the input class of finding F08) — a resolved BODY must still make the round trip
+    out.append(("q1-starved", M([ep("_the_q", h(4), x(3), ("RSTR", h(5)), ("BODY", h(6))), ep("_dog_n_1", h(7), x(3)),
+                                 ep("_bark_v_1", h(1), e(2), ("ARG1", x(3))),
+                                 ep("_big_a_1", h(1), e(8), ("ARG1", e(9))), ep("_big_a_1", h(1), e(9), ("ARG1", e(8)))],
+                                [T, [h(5), "qeq", h(7)]], e(2))))
+    return out
+
+
+def resolved_body_block(rng):
+    """deterministic: on four quantified structures, every quantifier's BODY resolved to every other label
+    (the restriction, the other quantifier, the verb's scope, a scopal operator) as a direct label
+    (label-scopal, BODY/HEQ) and through a qeq constraint (qeq-scopal, BODY/H); for the two-quantifier
+    structure every combination of the two bodies (open / label / qeq x target), which includes both fully
+    scoped readings; each also renumbered and with the predications shuffled."""
+    for name, m in body_bases():
+        labels = []
+        for e_ in m["rels"]:
+            if e_["label"] not in labels:
+                labels.append(e_["label"])
+        qpos = [i for i, e_ in enumerate(m["rels"]) if any(r == "RSTR" for r, _ in e_["args"])]
+        options = []
+        for i in qpos:
+            o = [None]
+            for tgt in labels:
+                if tgt != m["rels"][i]["label"]:
+                    o += [("heq", tgt), ("h", tgt)]
+            options.append(o)
+        for combo in itertools.product(*options):
+            if all(c is None for c in combo):
+                continue
+            mm = copy.deepcopy(m)
+            for i, c in zip(qpos, combo):
+                if c is None:
+                    continue
+                for a in mm["rels"][i]["args"]:
+                    if a[0] == "BODY":
+                        if c[0] == "heq":
+                            a[1] = c[1]
+                        else:
+                            mm["hcons"].append([a[1], "qeq", c[1]])
+            yield mm
+            m2 = renumber(rng, mm)
+            rng.shuffle(m2["rels"])
+            yield m2
+
+
+def offspace_block():
+    """deterministic, OUTSIDE the property's space but inside the anchored code (every case is compared
+    with the model; totality, link justification and node shape are still judged): predications without
+    ARG0 (from_mrs warns, gives type u and no properties; EP id `_0`), intrinsic variables of sorts other
+    than x/e/i/p/u — one letter (y, h) and several letters that are / are not substrings of 'xeipu'
+    (xe, ip, ex: `node.type not in types` in DMRS.arguments is a substring test) — as targets of EQ and NEQ
+    links, and individual constraints naming variables that occur nowhere else."""
+    h = lambda k: ["h", k]                      # noqa: E731
+    T = [h(0), "qeq", h(1)]
+
+    def M(rels, hcons, index=None, icons=()):
+        return {"top": h(0), "index": index, "rels": rels, "hcons": [list(c) for c in hcons],
+                "icons": [list(c) for c in icons], "vars": []}
+
+    def ep(pred, lbl, *args):
+        return {"pred": pred, "label": lbl, "args": [list(a) for a in args], "carg": None,
+                "lnk": None, "surface": None, "base": None}
+    # no ARG0
+    yield M([ep("_rain_v_1", h(1))], [T])
+    yield M([ep("_rain_v_1", h(1), ("ARG1", ["x", 3])), ep("_dog_n_1", h(1), ("ARG0", ["x", 3]))], [T], ["x", 3])
+    yield M([ep("_dog_n_1", h(1), ("ARG0", ["x", 3])), ep("_rain_v_1", h(2), ("ARG1", ["x", 3]))], [T], ["x", 3])
+    yield M([ep("neg", h(1), ("ARG0", ["e", 2]), ("ARG1", h(3))), ep("_rain_v_1", h(4))], [T, [h(3), "qeq", h(4)]], ["e", 2])
+    yield M([ep("_the_q", h(4), ("RSTR", h(5)), ("BODY", h(6))), ep("_dog_n_1", h(7), ("ARG0", ["x", 3])),
+             ep("_bark_v_1", h(1), ("ARG0", ["e", 2]), ("ARG1", ["x", 3]))], [T, [h(5), "qeq", h(7)]], ["e", 2])
+    # odd sorts as link targets (same scope: EQ; other scope: NEQ), and as the only predication
+    for sort in ("y", "h", "xe", "ip", "ex", "eip", "pu", "xeipu", "u", "p", "i"):
+        iv = [sort, 3]
+        yield M([ep("_dog_n_1", h(1), ("ARG0", iv))], [T], iv)
+        yield M([ep("_dog_n_1", h(1), ("ARG0", iv)), ep("_big_a_1", h(1), ("ARG0", ["e", 2]), ("ARG1", iv))], [T], ["e", 2])
+        yield M([ep("_bark_v_1", h(1), ("ARG0", ["e", 2]), ("ARG1", iv)), ep("_dog_n_1", h(7), ("ARG0", iv)),
+                 ep("_the_q", h(4), ("ARG0", iv), ("RSTR", h(5)), ("BODY", h(6)))], [T, [h(5), "qeq", h(7)]], ["e", 2])
+    # individual constraints whose variables occur nowhere else
+    yield M([ep("_rain_v_1", h(1), ("ARG0", ["e", 2]))], [T], ["e", 2], icons=[[["e", 2], "topic", ["x", 77]]])
+    yield M([ep("_rain_v_1", h(1), ("ARG0", ["e", 2]))], [T], ["e", 2], icons=[[["x", 78], "focus", ["x", 77]]])
+
+
+def body_kinds(mj):
+    """per quantifier of an MRS JSON: 'open' / 'heq' (BODY is directly a label) / 'h' (BODY is a hole with a
+    handle constraint onto a label) / 'dangling' / 'none'"""
+    labels = [e["label"] for e in mj["rels"]]
+    los = {canon(a): b for a, _, b in mj["hcons"]}
+    his = {canon(a) for a, _, b in mj["hcons"]}
+    out = []
+    for e in mj["rels"]:
+        if any(r == "RSTR" for r, _ in e["args"]):
+            b = [v for r, v in e["args"] if r == "BODY"]
+            if not b:
+                out.append("none")
+            elif canon(b[0]) in his:
+                out.append("h" if los[canon(b[0])] in labels else "dangling")
+            elif b[0] in labels:
+                out.append("heq")
+            else:
+                out.append("open")
+    return out
 
 
 def curated_base():
@@ -589,6 +777,57 @@ def strip(m):
     return mrs.MRS(top=top, index=index, rels=rels, hcons=list(dict.fromkeys(hcons)), icons=[], variables=keep)
 
 
+def f08_expected(m):
+    """What finding F08 predicts for the MRS that comes back, by the DEFINITIONS (scope_analysis) only:
+    the stripped source in which (a) every group of scope members without a representative has a label of
+    its own (no link ties it to the rest of its scope), (b) every argument selecting a scope that has no
+    representative at all is gone — a quantifier's BODY is then an open hole again, and a quantifier whose
+    RSTR is gone is no quantifier any more (fresh intrinsic variable of sort u, no BODY unless resolved).
+    A failure of the isomorphism clause is the KNOWN finding only if the returned MRS is isomorphic to this."""
+    an = scope_analysis(m)
+    eps = list(m.rels)
+    lo = {}
+    for hc in m.hcons:
+        lo[hc.hi] = hc.lo
+    empty = {l for l, a in an.items() if not a["reps"]}
+    fresh = itertools.count(800000)
+    relabel = {}
+    for a in an.values():
+        for g in a["starved"]:
+            lbl = "h%d" % next(fresh)
+            for i in g:
+                relabel[i] = lbl
+    rels = []
+    variables = {v: dict(ps) for v, ps in m.variables.items()}
+    for i, ep in enumerate(eps):
+        args = {}
+        lost_rstr = ep.is_quantifier() and lo.get(ep.args["RSTR"], ep.args["RSTR"]) in empty
+        for r, v in ep.args.items():
+            if r in ("ARG0", "CARG"):
+                args[r] = v
+            elif lo.get(v, v) in empty and variable.type(v) == "h" and v not in {e.iv for e in eps}:
+                if r == "BODY" and ep.is_quantifier() and not lost_rstr:
+                    args[r] = "h%d" % next(fresh)
+            else:
+                args[r] = v
+        if lost_rstr:
+            args["ARG0"] = "u%d" % next(fresh)
+            variables[args["ARG0"]] = {}
+        rels.append(mrs.EP(ep.predicate, relabel.get(i, ep.label), args))
+    return strip(mrs.MRS(top=m.top, index=m.index, rels=rels, hcons=list(m.hcons), icons=[], variables=variables))
+
+
+def f08_explains_iso(m, m2):
+    """is the returned MRS exactly what F08 predicts (and the input in the class of F08)?"""
+    if not starved_scopes(m):
+        return False
+    exp = f08_expected(m)
+    b = brute_iso(exp, m2) if len(m.rels) <= 9 else None
+    if b is None:
+        b = bool(mops.is_isomorphic(exp, m2))
+    return b
+
+
 def props_of(m, v):
     ps = m.variables.get(v)
     return sorted((k.upper(), str(val).lower()) for k, val in dict(ps).items()) if ps else []
@@ -666,6 +905,117 @@ def brute_iso(a, b, budget=200000):
         return None
 
 
+def positional_failures(m, d1, m2):
+    """Position by position (from_dmrs keeps the order of the predications), argument by argument, by the
+    DEFINITIONS only: the link inventory of the DMRS is complete (every argument DMRS can express has
+    exactly one link with that role from its predication, to the owner of the intrinsic variable with EQ/NEQ
+    by label identity, or to a member of the selected scope with H for a handle constraint and HEQ for a
+    direct label — BODY/H and BODY/HEQ of resolved quantifier bodies included), and the argument comes back
+    in the returned MRS with the same kind (intrinsic variable of the same predication / direct label of the
+    same scope / hole with a qeq onto the same scope / the open BODY hole of a quantifier / absent).
+    Label sharing is compared too.  Everything here is judged only where finding F08 has no effect:
+    arguments selecting a scope with a representative, label sharing inside the group of a scope that holds
+    its representatives — so these clauses are NEVER classified as known."""
+    fails = []
+    eps, e2 = list(m.rels), list(m2.rels)
+    an = scope_analysis(m)
+    lo = {hc.hi: hc.lo for hc in m.hcons}
+    lo2 = {}
+    for hc in m2.hcons:
+        lo2.setdefault(hc.hi, []).append(hc.lo)
+    labels2 = {ep.label for ep in e2}
+    ivpos = {ep.iv: i for i, ep in enumerate(eps) if not ep.is_quantifier()}
+    uses2 = {}
+    for ep in e2:
+        for r, v in ep.args.items():
+            if r not in ("ARG0", "CARG"):
+                uses2[v] = uses2.get(v, 0) + 1
+    if m2.top is not None:
+        uses2[m2.top] = uses2.get(m2.top, 0) + 1
+    links = {}
+    for l in d1.links:
+        links.setdefault((l.start, l.role), []).append((l.end, l.post))
+
+    def selected(v):
+        """(kind, label, members) of the scope an argument value selects, or None"""
+        if v in lo:
+            return ("qeq", lo[v], an.get(lo[v], {}).get("members"))
+        if v in an:
+            return ("lheq", v, an[v]["members"])
+        return None
+
+    def linked_quantifier(ep):
+        if not ep.is_quantifier():
+            return False
+        s_ = selected(ep.args["RSTR"])
+        return bool(s_ and s_[2] and an[s_[1]]["reps"])
+    for i, ep in enumerate(eps):
+        nid = 10000 + i
+        for r, v in out_args(ep):
+            w = e2[i].args.get(r)
+            got = links.get((nid, r), [])
+            where = {"position": i, "role": r, "value": V(v)}
+            if v in ivpos:
+                j = ivpos[v]
+                post = "EQ" if eps[j].label == ep.label else "NEQ"
+                if got != [(10000 + j, post)]:
+                    fails.append({"clause": "link inventory: a non-scopal argument does not have exactly its one link",
+                                  "detail": dict(where, want=[10000 + j, post], got=got)})
+                if w is None or w != e2[j].iv or e2[j].is_quantifier():
+                    fails.append({"clause": "round trip: a non-scopal argument does not come back as the intrinsic "
+                                            "variable of the same predication", "detail": where})
+                continue
+            sel = selected(v)
+            if sel and sel[2] and an[sel[1]]["reps"]:
+                kind, _, mem = sel
+                post = "H" if kind == "qeq" else "HEQ"
+                if len(got) != 1 or got[0][1] != post or got[0][0] - 10000 not in mem:
+                    fails.append({"clause": "link inventory: a scopal argument (%s/%s) does not have exactly its one "
+                                            "link into the selected scope" % ("BODY" if r == "BODY" else
+                                                                              "RSTR" if r == "RSTR" else "ARG", post),
+                                  "detail": dict(where, want_post=post, want_end_in=[10000 + k for k in mem], got=got)})
+                mem_labels = {e2[k].label for k in mem}
+                if kind == "lheq":
+                    ok = w is not None and w not in lo2 and w in mem_labels
+                else:
+                    ok = w is not None and w not in labels2 and len(lo2.get(w, [])) == 1 \
+                        and lo2[w][0] in mem_labels and uses2.get(w) == 1
+                if not ok:
+                    fails.append({"clause": "round trip: a scopal argument (%s, %s) does not come back selecting the "
+                                            "same scope in the same way" % ("BODY" if r == "BODY" else
+                                                                            "RSTR" if r == "RSTR" else "ARG",
+                                                                            "direct label" if kind == "lheq" else "qeq"),
+                                  "detail": dict(where, back=w, hcons_back=lo2.get(w))})
+                continue
+            if got:
+                fails.append({"clause": "link inventory: an argument DMRS cannot express has a link",
+                              "detail": dict(where, got=got)})
+            if r == "BODY" and ep.is_quantifier():
+                if linked_quantifier(ep) and (w is None or w in lo2 or w in labels2 or uses2.get(w) != 1
+                                              or variable.type(w) != "h"):
+                    fails.append({"clause": "round trip: an open quantifier BODY does not come back as a fresh "
+                                            "unconstrained hole", "detail": dict(where, back=w)})
+            elif r == "RSTR" and ep.is_quantifier():
+                pass            # restriction without a representative: finding F08 (the node is no quantifier)
+            elif w is not None:
+                fails.append({"clause": "round trip: an argument DMRS cannot express comes back", "detail": where})
+        extra = sorted(set(e2[i].args) - set(ep.args) - ({"BODY"} if ep.is_quantifier() else set()))
+        if extra:
+            fails.append({"clause": "round trip: a predication comes back with a role it did not have",
+                          "detail": {"position": i, "roles": extra}})
+    # label sharing
+    starved = {i for a in an.values() for g in a["starved"] for i in g}
+    for i in range(len(eps)):
+        for j in range(i + 1, len(eps)):
+            same = eps[i].label == eps[j].label
+            if same and (i in starved or j in starved):
+                continue
+            if same != (e2[i].label == e2[j].label):
+                fails.append({"clause": "round trip: label sharing between two predications is not preserved",
+                              "detail": {"positions": [i, j], "shared_in_source": same}})
+    return fails
+
+
 def top_positions(m):
     """positions of the predications in the scope the top selects (through its constraint)"""
     if m.top is None:
@@ -700,7 +1050,8 @@ INSPACE_SRC_HYPS = ("baseIdsNodup", "rolesOk", "ivSorts", "rstrLinked", "scopesH
 
 class C04(Check):
     pid = "C04"
-    props_modules = ["Verif.C04.Props", "Verif.C04.PropsRT", "Verif.C04.PropsIso", "Verif.C04.PropsSrc"]
+    props_modules = ["Verif.C04.Props", "Verif.C04.PropsRT", "Verif.C04.PropsIso", "Verif.C04.PropsSrc",
+                     "Verif.C04.PropsBody"]
     quick_cases = 4000
     thorough_cases = 40000
     rule = ("(a) 19 curated structures of 0-5 predications, one per attachment kind (modifier, label sharing without "
@@ -719,7 +1070,22 @@ class C04(Check):
             "copy first), and the same texts as predicate and property value; 30% of the gen_wf stream decorated the same "
             "way after renumbering; (f) the named structures of curated_base() (coordination with L/R-INDEX + L/R-HNDL "
             "sharing its label with a modifier, with qeq and with direct labels; twins in different scopes, non-top first, "
-            "with and without CARG) in every run. The isomorphism / second-conversion / top / index clauses are evaluated on the inputs of "
+            "with and without CARG) in every run; (g) RESOLVED QUANTIFIER BODIES (fully / partly scoped MRSs): a "
+            "deterministic block on six quantified structures (one and two quantifiers, restriction with a modifier, a "
+            "scopal operator between top and verb, a verb scope with two representatives, a top scope with a group "
+            "without representative = class of F08) resolving every quantifier's BODY to every other label as a direct "
+            "label (BODY/HEQ) and through a qeq constraint (BODY/H), all combinations for two quantifiers (both scoped "
+            "readings included), each also renumbered and shuffled; 40% of the quantified gen_wf cases get resolved "
+            "bodies (a chain q1>q2>...>scope, or each body independently open/label/qeq to any label); counted as "
+            "inside:body-heq / body-h / fully-scoped and link:BODY/H, link:BODY/HEQ. ORACLE besides isomorphism: position by "
+            "position and argument by argument the link inventory must be COMPLETE (each expressible argument exactly "
+            "one link, right post, into the selected scope) and each argument must come back in the same way "
+            "(intrinsic variable of the same predication / direct label / hole with one qeq used once / open BODY "
+            "hole / absent), and label sharing must be preserved; these clauses are judged only where F08 has no "
+            "effect and are never classified as known. F08 classification requires, besides the input class, that "
+            "the MRS that came back is isomorphic to what F08 predicts (f08_expected: groups without representative "
+            "relabelled, arguments into scopes without representative dropped) — any other deviation on an input "
+            "of that class is reported. The isomorphism / second-conversion / top / index clauses are evaluated on the inputs of "
             "the property's space: is_well_formed, qeq constraints only, one constraint per hole, no constrained "
             "handle that is also a label, x/e/i/p/u intrinsic variables, pairwise distinct EP identifiers, every "
             "quantifier with RSTR selecting a scope and BODY, binding the intrinsic variable of the first representative "
@@ -868,6 +1234,13 @@ class C04(Check):
             yield {"kind": "rt", "src": "curated", "m": renumber(rng, m)}
         for m in lookalike_block():
             yield {"kind": "rt", "src": "lookalike", "m": m}
+        for m in resolved_body_block(rng):
+            yield {"kind": "rt", "src": "body", "m": m}
+        for m in offspace_block():
+            yield {"kind": "rt", "src": "offspace", "m": m}
+        # the same structures built with None where a component is empty (MRS.__init__ / EP.__init__ defaults)
+        for m in curated()[:4] + list(offspace_block())[:2]:
+            yield {"kind": "rt", "src": "ctor-none", "m": m, "ctor": "none"}
         yield from self.random_cases(rng, n)
 
     def random_cases(self, rng, n, only=None):
@@ -907,9 +1280,27 @@ class C04(Check):
         yield from self.random_cases(rng, n, kinds or None)
 
     # ---- implementation
-    def run(self, mj):
+    @staticmethod
+    def build(mj, ctor=None):
+        """the source object; with ctor='none' every empty component is passed as None (the constructors'
+        own defaults) instead of an empty list / dict"""
+        if ctor != "none":
+            return semgen.mrs_from_json(mj)
+        rels = []
+        for j in mj["rels"]:
+            e = semgen.ep_from_json(j)
+            if not e.args:
+                e = mrs.EP(e.predicate, e.label, None, lnk=e.lnk, surface=e.surface, base=e.base)
+            rels.append(e)
+        full = semgen.mrs_from_json(mj)
+        return mrs.MRS(top=full.top, index=full.index, rels=rels or None, hcons=list(full.hcons) or None,
+                       icons=list(full.icons) or None,
+                       variables={semgen.var_from_json(v): dict((k, val) for k, val in ps)
+                                  for v, ps in mj.get("vars", [])} or None)
+
+    def run(self, mj, ctor=None):
         """(m, d1, m2, d2) as objects or the exception enum, warnings suppressed"""
-        m = semgen.mrs_from_json(mj)
+        m = self.build(mj, ctor)
         out = {"m": m}
         try:
             out["d1"] = _quiet(dmrs.from_mrs, m)
@@ -928,7 +1319,7 @@ class C04(Check):
         return out
 
     def impl(self, case):
-        o = self.run(case["m"])
+        o = self.run(case["m"], case.get("ctor"))
         res = {}
         if "d1" in o:
             res["d1"] = {"ok": semgen.dmrs_to_json(o["d1"])}
@@ -1069,7 +1460,7 @@ class C04(Check):
 
         def fail(clause, detail=None):
             fails.append({"clause": clause, "detail": detail})
-        o = self.run(case["m"])
+        o = self.run(case["m"], case.get("ctor"))
         m = o["m"]
         eps = list(m.rels)
         why_out = in_space(case["m"], m)
@@ -1188,6 +1579,9 @@ class C04(Check):
             fail("round trip: the index is not the same predication's variable", {"src": ip, "rt": index_position(m2)})
         if [e.predicate for e in m2.rels] != [e.predicate for e in eps]:
             fail("round trip: predications are not in the source order")
+        elif len(set(ep.id for ep in eps)) == len(eps):
+            for f in positional_failures(m, d1, m2):
+                fails.append(f)
 
         # ---- the second conversion
         if "d2" not in o:
@@ -1235,20 +1629,59 @@ class C04(Check):
                     and m.rels[tp[0]].label in empty_scopes(m):
                 return "F08"
             return None
+        # The input class alone is not enough: a DIFFERENT defect may show on an input that happens to be in
+        # the class of F08.  The failure is the known one only if what came back is what F08 predicts.
+        an = scope_analysis(m)
+        if not any(a["starved"] for a in an.values()):
+            return None
+        o = self.run(case["m"])
+        if "m2" not in o:
+            return None
+        starved = {i for a in an.values() for g in a["starved"] for i in g}
         if clause == self.F08_CLAUSES[2]:
+            # the top scope is split: the top comes back selecting the group that holds its representatives
             tp = top_positions(m)
-            if tp is not None and m.rels[tp[0]].label in starved_scopes(m):
+            if tp is not None and m.rels[tp[0]].label in starved_scopes(m) and \
+                    top_positions(o["m2"]) == [i for i in tp if i not in starved]:
                 return "F08"
             return None
         if str(clause).startswith("second conversion: "):
-            # a link into a scope without any representative was dropped by the first conversion
-            # (e.g. a quantifier that lost its RSTR link is no quantifier in the DMRS)
+            # a link into a scope without any representative was dropped by the first conversion: a quantifier
+            # that lost its RSTR link is no quantifier in the DMRS (type None), and an ordinary predication
+            # with a fresh u variable in the MRS that comes back (type u in the second DMRS)
             empty = empty_scopes(m)
             lo = {hc.hi: hc.lo for hc in m.hcons}
-            if any(lo.get(v, v) in empty for ep in m.rels for _, v in out_args(ep)):
+            if not any(lo.get(v, v) in empty for ep in m.rels for _, v in out_args(ep)):
+                return None
+            if "d2" not in o:
+                return None
+            lost = {i for i, ep in enumerate(m.rels)
+                    if ep.is_quantifier() and lo.get(ep.args["RSTR"], ep.args["RSTR"]) in empty}
+            affected = set(lost) | {i for l, a in an.items() if a["starved"] for i in a["members"]} | \
+                {i for i, ep in enumerate(m.rels) if any(lo.get(v, v) in empty for _, v in out_args(ep))}
+            j1, j2 = semgen.dmrs_to_json(o["d1"]), semgen.dmrs_to_json(o["d2"])
+            if clause == "second conversion: nodes differ":
+                if len(j1["nodes"]) != len(j2["nodes"]):
+                    return None
+                for i, (a, b) in enumerate(zip(j1["nodes"], j2["nodes"])):
+                    if a != b and not (i in lost and a["type"] is None and b["type"] == "u"
+                                       and {k: v for k, v in a.items() if k != "type"} ==
+                                       {k: v for k, v in b.items() if k != "type"}):
+                        return None
                 return "F08"
+            if clause == "second conversion: set of links differs":
+                a, b = set(map(tuple, j1["links"])), set(map(tuple, j2["links"]))
+                if all(l[0] - 10000 in affected or l[1] - 10000 in affected for l in a ^ b):
+                    return "F08"
+                return None
+            if clause in ("second conversion: top differs", "second conversion: index differs"):
+                k = "top" if "top" in clause else "index"
+                if all(v is None or v - 10000 in affected for v in (j1[k], j2[k])):
+                    return "F08"
             return None
-        if starved_scopes(m):
+        # the isomorphism clauses: every group without a representative comes back with a label of its own,
+        # arguments into a scope without any representative are gone — and nothing else differs
+        if f08_explains_iso(m, o["m2"]):
             return "F08"
         return None
 
@@ -1276,7 +1709,7 @@ class C04(Check):
         if "ok" in res["d1"]:
             d = res["d1"]["ok"]
             for l in d["links"]:
-                inc("link:%s/%s" % ("MOD" if l[2] == "MOD" else ("RSTR" if l[2] == "RSTR" else "ARG"), l[3]))
+                inc("link:%s/%s" % (l[2] if l[2] in ("MOD", "RSTR", "BODY") else "ARG", l[3]))
             inc("links=%d" % min(len(d["links"]), 12))
             if d["top"] is None:
                 inc("dmrs:no-top")
@@ -1301,8 +1734,15 @@ class C04(Check):
                 inc("inside:carg")
             if any(r == "RSTR" for e in mj["rels"] for r, v in e["args"]):
                 inc("inside:quantifier")
+            bk = body_kinds(mj)
+            for k in set(bk):
+                inc("inside:body-%s" % k)
+            if bk and all(k in ("h", "heq") for k in bk):
+                inc("inside:fully-scoped(every BODY resolved)")
             if starved_scopes(m):
                 inc("inside:starved-scope(F08)")
+                if any(k in ("h", "heq") for k in bk):
+                    inc("inside:starved-scope(F08)+resolved-body")
             if [canon(e["args"][0][1][1]) for e in mj["rels"]] != sorted(canon(e["args"][0][1][1]) for e in mj["rels"]):
                 inc("inside:ids-not-in-position-order")
 
